@@ -207,6 +207,7 @@ impl MeCabOovPlugin {
         let mut num_created = 0;
 
         for ctype in input.cat_at_char(offset).iter() {
+            verif_point!("mecab_oov:category");
             let cinfo = match self.categories.get(&ctype) {
                 Some(ci) => ci,
                 None => continue,
